@@ -39,6 +39,15 @@ package smpp
 //@   modifies t
 //@   ensures [C16 set] mapdom(t, tlv.tag)
 
+// Triplet sequences with repeated tags (parser agreement, C16): both parsers keep the LAST occurrence of a tag.
+// tseq(S): S is a sequence of complete triplets; thas(S, k): tag k occurs in it; tlast(S, k): the value of its last occurrence.
+//@ pure func ttag(S Bytes) int = dbe16(take(S, 2))
+//@ pure func tlen(S Bytes) int = dbe16(take(drop(S, 2), 2))
+//@ pure func trest(S Bytes) Bytes = drop(S, 4 + tlen(S))
+//@ rec func tseq(S Bytes) bool = len(S) == 0 ? true : (len(S) >= 4 && len(S) >= 4 + tlen(S) && tseq(trest(S)))
+//@ rec func thas(S Bytes, k int) bool = len(S) < 4 ? false : (ttag(S) == k || thas(trest(S), k))
+//@ rec func tlast(S Bytes, k int) Bytes = len(S) < 4 ? eps : (thas(trest(S), k) ? tlast(trest(S), k) : (ttag(S) == k ? take(drop(S, 4), tlen(S)) : eps))
+
 // ReadTLVs1: default behaviour = arbitrary input (safety, termination, well-formed result);
 // behaviour `ser` = the input is the serialisation, in any order, of a well-formed parameter set.
 
@@ -58,6 +67,11 @@ package smpp
 //@   requires !packet.rfailed(r)
 //@   requires isperm(ord, M) && tlvwf(M) && packet.rem(r) == tlvser(M, ord, 0, len(M))
 //@   ensures [C16,C01,C02 parsed] !packet.rfailed(r) && mapeq(result, M)
+//@   behavior dup props=C16
+//@   ghost k int
+//@   requires !packet.rfailed(r) && tseq(packet.rem(r)) && 0 <= k && k < 65536
+//@   ensures [C16 last.dom] mapdom(result, k) <==> thas(old(packet.rem(r)), k)
+//@   ensures [C16 last.value] mapdom(result, k) ==> content(result[k].value) == tlast(old(packet.rem(r)), k) && int(result[k].length) == len(result[k].value) && int(result[k].tag) == k
 //@   loop 1
 //@     invariant packet.rinv(r)
 //@     invariant tlvwf(tlvs) && fresh(tlvs)
@@ -68,6 +82,11 @@ package smpp
 //@     invariant @ser len(tlvs) == iter
 //@     invariant @ser forall k int :: mapdom(tlvs, k) <==> (mapdom(M, k) && ordinv(ord, k) < iter)
 //@     invariant @ser forall k int :: mapdom(tlvs, k) ==> tlvs[k].tag == M[k].tag && tlvs[k].length == M[k].length && content(tlvs[k].value) == content(M[k].value)
+//@     invariant @dup !packet.rfailed(r) && tseq(packet.rem(r))
+//@     invariant @dup thas(entry(packet.rem(r)), k) <==> (thas(packet.rem(r), k) || mapdom(tlvs, k))
+//@     invariant @dup thas(packet.rem(r), k) ==> tlast(entry(packet.rem(r)), k) == tlast(packet.rem(r), k)
+//@     invariant @dup !thas(packet.rem(r), k) && mapdom(tlvs, k) ==> content(tlvs[k].value) == tlast(entry(packet.rem(r)), k)
+//@     invariant @dup mapdom(tlvs, k) ==> int(tlvs[k].length) == len(tlvs[k].value) && int(tlvs[k].tag) == k
 //@     decreases len(packet.rem(r))
 
 // ReadTLVs (the error-returning twin): default behaviour = arbitrary input (safety, termination, well-formed result);
